@@ -4,6 +4,7 @@ seeded/*/meta.json and seeded/RESULTS.md."""
 import json, glob, os, re
 
 NOTES = {
+ "C11-6": "missed by C11 at first (C10 caught it): registration of a fresh second-level name for an owner that does not witness (an account, a deployed contract)",
  "C03-5": "missed by C03 at first (C19 caught it): emit row right after the Inner Ring went to somebody else; the ring member as a signer set",
  "C05-5": "missed at first: grids on chains whose Inner Ring is larger than the Alphabet; preparatory puts are judged too",
  "C06-5": "missed at first: epoch jumps by x256 (numbers whose encodings are byte shifts of one another)",
